@@ -110,12 +110,14 @@ func (x *explorer) h(worker int) *harness {
 	return x.harness[worker]
 }
 
-// whiteTag is the white-box part of the de-dup key.
+// whiteTag is the white-box part of the de-dup key: the implementation type of the target (dense / sparse
+// array storage, lazy function, template object, ...). The array counters objCount / propValueCount are
+// deliberately not part of it: objCount is not decremented by length truncation (C07's finding), which makes
+// it grow without bound along define-index / truncate cycles and the search infinite.
 func whiteTag(o *goja.Object) string {
 	impl := goja.VerifImpl(o)
 	if strings.Contains(impl, "rrayObject") {
-		a := goja.VerifArray(o)
-		return fmt.Sprintf("%s/%d/%d", a.Kind, a.ObjCount, a.PropValueCount)
+		return goja.VerifArray(o).Kind
 	}
 	return impl
 }
